@@ -223,6 +223,14 @@ pub fn build(
     let mut calling_convention = None;
     for attribute in &function.attributes {
         let Some((ident, exprs)) = attribute.function() else {
+            if let grammar::Attribute::Ident(ident) | grammar::Attribute::Assign(ident, _) = attribute {
+                if ident.as_str() == "calling_convention" {
+                    anyhow::bail!(
+                        "the calling convention of function `{}` must be written `calling_convention(\"<name>\")`",
+                        function.name
+                    );
+                }
+            }
             continue;
         };
         match (ident.as_str(), &exprs[..]) {
@@ -259,6 +267,12 @@ pub fn build(
                         function.name
                     )
                 })?);
+            }
+            ("calling_convention", _) => {
+                anyhow::bail!(
+                    "the calling convention of function `{}` must be written `calling_convention(\"<name>\")`",
+                    function.name
+                );
             }
             _ => {}
         }
